@@ -163,7 +163,7 @@ def run_job_s(job, exe, tier, idx, pid, pool=None):
     os.makedirs(os.path.join(OUT, pid), exist_ok=True)
     split = int(job.get("split", 1))
     base = [exe, "--cfg", cfg_str(job["cfg"]),
-            "--timeout-ms", str(job.get("timeout_ms", 60000 if tier == "quick" else 300000)),
+            "--timeout-ms", str(job.get("timeout_ms", 180000 if tier == "quick" else 600000)),
             "--budget-s", str(job.get("budget_s", 600 if tier == "quick" else 6000))]
     wall_limit = job.get("wall_s", 900 if tier == "quick" else 7200)
     t0 = time.time()
